@@ -1654,7 +1654,7 @@ func parseSort(p *parser, t token, lhs Node) (Node, error) {
 		p.consume(typeComma, true)
 	}
 
-	p.consume(typeParenClose, true)
+	p.consume(typeParenClose, false)
 
 	return &SortNode{
 		Expr:  lhs,
